@@ -1610,10 +1610,11 @@ func (c *control) dirIter(colon, at bool, params []any) {
 		// The iterator argument must be a list of lists with the each list
 		// element being consumed by one iteration.
 		var argList slip.List
-		if c.argPos < len(c.args) {
-			argList = c.objAsList(c.args[c.argPos], "iteration directive argument")
-			c.argPos++
+		if len(c.args) <= c.argPos {
+			slip.ErrorPanic(c.scope, 0, "missing argument for iteration directive at %d of %q", c.pos, c.str)
 		}
+		argList = c.objAsList(c.args[c.argPos], "iteration directive argument")
+		c.argPos++
 		if atLeastOnce && len(argList) == 0 {
 			argList = slip.List{slip.List{}}
 		}
@@ -1645,11 +1646,11 @@ func (c *control) dirIter(colon, at bool, params []any) {
 	default:
 		// The iterator argument must be a list that is consumed progressively
 		// for each iteration.
-		c2.args = nil
-		if c.argPos < len(c.args) {
-			c2.args = c.objAsList(c.args[c.argPos], "iteration directive argument")
-			c.argPos++
+		if len(c.args) <= c.argPos {
+			slip.ErrorPanic(c.scope, 0, "missing argument for iteration directive at %d of %q", c.pos, c.str)
 		}
+		c2.args = c.objAsList(c.args[c.argPos], "iteration directive argument")
+		c.argPos++
 		c2.argPos = 0
 		for ; 0 < n; n-- {
 			if (len(c2.args) <= c2.argPos && !atLeastOnce) || c2.stop {
